@@ -560,6 +560,8 @@ func runStorage(c *verdict.Ctx) {
 		switch w.Stream {
 		case "rotation-race":
 			runRace(c, base)
+		case "bigrec", "rawgroup":
+			runBig(c, base)
 		case "history":
 			runHistory(c, w.Index, base)
 		}
@@ -605,6 +607,7 @@ func runStorage(c *verdict.Ctx) {
 
 	c.Set("histories", n)
 	runRace(c, base)
+	runBig(c, base)
 	c.Count("hook_autofile_synced_hits", verifhook.Hits("autofile.synced"))
 	c.Count("hook_group_rotate_hits", verifhook.Hits("group.rotate"))
 	c.Count("hook_group_removed_hits", verifhook.Hits("group.removed"))
